@@ -122,6 +122,42 @@ def quiet():
     return contextlib.redirect_stdout(io.StringIO())
 
 
+def gfile_psi_range(geometry, nR=65, nZ=65, mirror=False, psi_sign=1.0, psi_scale=1.0):
+    """(psi on the axis, psi on the separatrix) of the sampled arrays, in the units of the arrays: what an EFIT file would carry as simagx / sibdry"""
+    from hypnotoad.utils import critical
+
+    r1d, z1d, psi2d, _ = tokamak_arrays(geometry, nR, nZ, mirror=mirror, psi_sign=psi_sign, psi_scale=psi_scale)
+    R2, Z2 = np.meshgrid(r1d, z1d, indexing="ij")
+    with quiet():
+        op, xp = critical.find_critical(R2, Z2, psi2d, 1e-6, 1000)
+    return float(op[0][2]), float(xp[0][2]), (float(op[0][0]), float(op[0][1]))
+
+
+def make_tokamak_gfile(geometry, options, *, fpol=None, pressure=None, wall=None, nR=65, nZ=65, mirror=False, psi_sign=1.0, psi_scale=1.0, nonorth=None):
+    """the same equilibrium through the route a user with an EFIT file takes: the arrays are written as geqdsk text (profiles on the uniform psi grid
+    between axis and separatrix, as the format prescribes) and read back with tokamak.read_geqdsk"""
+    from hypnotoad.cases import tokamak
+    from hypnotoad.geqdsk import _geqdsk
+
+    r1d, z1d, psi2d, _ = tokamak_arrays(geometry, nR, nZ, mirror=mirror, psi_sign=psi_sign, psi_scale=psi_scale)
+    simagx, sibdry, (rm, zm) = gfile_psi_range(geometry, nR, nZ, mirror, psi_sign, psi_scale)
+    psi1d = np.linspace(simagx, sibdry, nR)
+    if wall is None:
+        wall = default_wall(mirror=mirror)
+    data = {"nx": nR, "ny": nZ, "rdim": float(r1d[-1] - r1d[0]), "zdim": float(z1d[-1] - z1d[0]), "rcentr": 1.5, "bcentr": 1.0, "rleft": float(r1d[0]),
+            "zmid": float(0.5 * (z1d[0] + z1d[-1])), "rmagx": rm, "zmagx": zm, "simagx": simagx, "sibdry": sibdry, "cpasma": 1e6,
+            "fpol": np.zeros(nR) if fpol is None else fpol(psi1d / psi_scale), "pres": np.zeros(nR) if pressure is None else pressure(psi1d / psi_scale),
+            "qpsi": np.zeros(nR), "psi": psi2d, "rlim": [p[0] for p in wall], "zlim": [p[1] for p in wall]}
+    buf = io.StringIO()
+    _geqdsk.write(data, buf)
+    buf.seek(0)
+    with quiet():
+        eq = tokamak.read_geqdsk(buf, settings=dict(options), nonorthogonal_settings=dict(options if nonorth is None else nonorth))
+    if isinstance(eq, tuple):       # read_geqdsk returns (partial object, exception) when the constructor raised
+        raise eq[1]
+    return eq, {"r1d": r1d, "z1d": z1d, "psi2d": psi2d, "psi1d": psi1d, "fpol1d": data["fpol"], "gfile": buf.getvalue()}
+
+
 def make_tokamak(geometry, options, *, fpol=None, pressure=None, wall=None, nR=65, nZ=65, mirror=False,
                  psi_sign=1.0, make_regions=True, nonorth=None, psi1d_rmax=None, psi_scale=1.0):
     from hypnotoad.cases import tokamak
